@@ -131,7 +131,7 @@ class G:
             heap += ['cell', 'rawptr', 'result', 'niche']
         if hashable:
             heap = [] if copy else ['string', 'str']
-            comp = ['tuple', 'cenum', 'option', 'array']
+            comp = ['tuple', 'cenum', 'option', 'array', 'hstruct', 'hstruct']
         if copy:
             comp = ['tuple', 'cenum', 'option', 'array']
         if depth <= 0:
@@ -151,6 +151,13 @@ class G:
             self.nstruct += 1
             fields = [(f'f{i}', self.gen_type(depth - 1, False, copy)) for i in range(r.randint(1, 4))]
             t = {'k': 'struct', 'name': f'S{n}', 'fields': fields}
+            self.emit_struct(t)
+            return t
+        if k == 'hstruct':
+            n = self.nstruct
+            self.nstruct += 1
+            fields = [(f'f{i}', self.gen_type(0, True, copy)) for i in range(r.randint(2, 3))]
+            t = {'k': 'struct', 'name': f'S{n}', 'fields': fields, 'hashable': True}
             self.emit_struct(t)
             return t
         if k == 'cenum':
@@ -260,7 +267,8 @@ class G:
         fs = ', '.join(f'{n}: {self.rust_type(ft)}' for n, ft in t['fields'])
         canon = ','.join('[\\"%s\\",{}]' % n for n, _ in t['fields'])
         args = ', '.join(f'self.{n}.canon()' for n, _ in t['fields'])
-        self.defs.append(f'struct {t["name"]} {{ {fs} }}\n'
+        der = '#[derive(PartialEq, Eq, Hash, PartialOrd, Ord)] ' if t.get('hashable') else ''
+        self.defs.append(f'{der}struct {t["name"]} {{ {fs} }}\n'
                          f'impl Canon for {t["name"]} {{ fn canon(&self) -> String {{ format!("{{{{\\"s\\":\\"{t["name"]}\\",\\"f\\":[{canon}]}}}}", {args}) }} }}')
 
     def emit_cenum(self, t):
